@@ -227,6 +227,63 @@ def h_check(H):
         it.ctx.oblige("check.original_untouched", z3.BoolVal(not touched(fs_, ap.key)), "post")
     S.explore(body)
 
+@harness(PROPERTY, "check_NP24_exits", functions=["neuropixel:NP2Converter.check_NP24"], replay=lambda vals, oid: native_failed_check_then_delete(),
+         clause="check_completed is true only after a successful bit-exact comparison: every exceptional way out of check_NP24 leaves it unset")
+def h_check_exits(H):
+    # every way out of check_NP24 (the real function as a whole; the window loop is cut at its head: an arbitrary iteration, or the exit):
+    # a comparison that fails - or any other exception - must leave check_completed unset, whatever clean-up the function performs on the way out
+    S2 = H.session("check.exits")
+
+    def exits(it):
+        fs_, conv, ap, napch = mk_conv(it)
+        ns, W = z3.Ints("ns W")
+        it.ctx.assume(z3.And(ns >= 1, W >= 1))
+        nc = napch + 1
+        orig = A.fresh_array("origV", "float32", (ns, nc))
+
+        class VReader:
+            _pyvc_ok = True
+
+            def __init__(self, arr):
+                self.arr = arr
+                self.closed = False
+
+            def __getitem__(self, idx):
+                return A.getitem(self.arr, idx).copy()
+
+            def close(self):
+                self.closed = True
+        conv.attrs["sr"] = VReader(orig)
+        conv.attrs["nsamples"] = SV(ns)
+        conv.attrs["samples_window"] = SV(W)
+        conv.attrs["check_completed"] = False            # as init_params / a fresh converter leaves it
+        info = {}
+        rd = {}
+        for s_ in (0, 1):
+            m = z3.Int(f"nchn{s_}")
+            it.ctx.assume(z3.And(m >= 1, m <= nc))
+            ch = A.fresh_array(f"chns{s_}", "int64", (m,), ranged=False)
+            A.assume_range(ch, 0, nc - 1)
+            k, k2 = z3.Int(fresh_name("k")), z3.Int(fresh_name("k"))
+            it.ctx.assume(z3.ForAll([k, k2], z3.Implies(z3.And(k >= 0, k < k2, k2 < m), ch.uf(k) < ch.uf(k2)), patterns=[z3.MultiPattern(ch.uf(k), ch.uf(k2))]))
+            it.ctx.assume(ch.uf(m - 1) == napch)
+            f = A.fresh_array(f"shankV{s_}", "float32", (ns, m))
+            pth = ap.parent.parent.joinpath("probe00" + chr(97 + s_)).joinpath(ap.name)
+            info[f"shank{s_}"] = {"chns": ch, "ap_file": pth}
+            rd[pth.key] = VReader(f)
+        conv.attrs["shank_info"] = info
+        it.session.contracts[spikeglx.Reader] = lambda it_, a, k: rd[a[0].key]
+        it.session.contracts[C17.FIRSTLAST] = N.firstlast_summary_with_nwin
+        it.session.assert_mode = "branch"
+        try:
+            run_function(it, neuropixel.NP2Converter.check_NP24, [conv])
+        except PyRaise as e:
+            it.ctx.oblige("check.exits.flag_unset_when_verification_fails", z3.BoolVal(conv.attrs.get("check_completed") is False), "post",
+                          f"check_NP24 left by {type(e.exc).__name__}: check_completed must still be False (the original may be deleted on the strength of this flag)")
+            return
+        it.ctx.oblige("check.exits.flag_set_on_normal_return", z3.BoolVal(conv.attrs.get("check_completed") is True), "post")
+    S2.explore(exits)
+
 
 # ----------------------------------------------------------------------------- epilogue of _process_NP24: order of verification / compression / deletion
 @harness(PROPERTY, "process_NP24_epilogue", functions=["neuropixel:NP2Converter._process_NP24", "neuropixel:NP2Converter.delete_NP24", "neuropixel:NP2Converter.process"],
@@ -477,8 +534,51 @@ def _mk(kind, ns=3000):
     return d, ap, D.tobytes()
 
 
+def native_failed_check_then_delete(*_a):
+    out = {"failed": False, "histories": []}
+    for how in ("check_called_directly", "check_inside_process"):
+        d, ap, orig = _mk("NP2.4")
+        try:
+            conv = neuropixel.NP2Converter(ap, post_check=(how == "check_inside_process"), compress=False, delete_original=True)
+            conv.init_params(nwindow=1200)
+
+            def damage():
+                f = conv.shank_info["shank1"]["ap_file"]
+                a = np.fromfile(f, dtype=np.int16)
+                a[1234 * 97 + 5] += 1
+                a.tofile(f)
+            raised = False
+            if how == "check_called_directly":
+                conv.process()
+                damage()
+                try:
+                    conv.check_NP24()
+                except AssertionError:
+                    raised = True
+            else:
+                real = conv._writemetadata_lf
+                conv._writemetadata_lf = lambda: (real(), damage())
+                try:
+                    conv.process()
+                except AssertionError:
+                    raised = True
+            flag = bool(conv.check_completed)
+            try:
+                conv.delete_NP24()
+            except Exception:
+                pass
+            alive = os.path.exists(ap) and open(ap, "rb").read() == orig
+            h = {"history": how, "verification_raised": raised, "check_completed_after_failure": flag, "original_intact_after_delete_NP24": alive}
+            out["histories"].append(h)
+            if not raised or flag or not alive:
+                out["failed"] = True
+        finally:
+            shutil.rmtree(d, ignore_errors=True)
+    return out
+
+
 @bounded(PROPERTY, "native_histories", bound="real files (3000 samples, window 1200): NP2.4 x option triples {post_check, compress, delete_original} sampled (quick 4, thorough all 8) x histories "
-         "[run], [run, run], [run, run(overwrite)], [fresh run(overwrite)], [run interrupted during compression, run(overwrite)], [run with a corrupted shank file + delete_original]; NP2.1 x {run, run run, run(overwrite)}; "
+         "[run], [run, run], [run, run(overwrite)], [fresh run(overwrite)], [run interrupted during compression, run(overwrite)], [run with a corrupted shank file + delete_original], [failed verification, then delete_NP24() on the same object]; NP2.1 x {run, run run, run(overwrite)}; "
          "NP1 and an already split shank",
          clause="original recoverable after every history; repeated run is a no-op reporting 0; forced re-run ends with a complete set")
 def b_native(B):
@@ -545,6 +645,9 @@ def b_native(B):
             B.case(("corrupt_then_delete", where), raised and os.path.exists(ap) and open(ap, "rb").read() == orig, detail={"raised": raised, "original_exists": os.path.exists(ap)})
         finally:
             shutil.rmtree(d, ignore_errors=True)
+    # a verification that failed, followed by an explicit delete_NP24() on the same converter object: the original must survive
+    r = native_failed_check_then_delete()
+    B.case("failed_check_then_delete", not r["failed"], detail=r)
     # partial folders (finding F-C04-1)
     d, ap, orig = _mk("NP2.4")
     try:
